@@ -42,3 +42,4 @@ def run(ctx):
     H.r16_1_purity(ctx, 'R01.7', roots=['yatiml.recognizer:Recognizer.recognize', 'yatiml.introspection:class_subobjects'], what='recognition and signature introspection')
     from . import round3 as R3
     R3.r01_10_tree_untouched(ctx)
+    R3.r01_9_user_classes_registered_last(ctx)
